@@ -5,15 +5,115 @@ import (
 	"flag"
 	"fmt"
 	"os"
+	"os/exec"
 	"path/filepath"
 	"strings"
 )
 
-// tryReplay attempts to run the solver's counterexample against the real code.
-// It returns the tail of the VIOLATION line ("" when no replay is available).
-// Models over the heap encoding are not translated into Go inputs (DESIGN §8),
-// so there is nothing to run: the replay file carries the obligation instead.
-func tryReplay(o *checkOpts, r *Result, body map[string]any) string { return "" }
+// tryReplay runs a concrete search for a failing input on the real code, after an obligation
+// of a function with a replay harness (contracts/replay/<package>.go.txt) has failed. The
+// harness is injected into the function's package with `go test -overlay` (nothing is written
+// into /repo), calls the real function on candidate inputs and evaluates the failed
+// postcondition on what it returned. It returns the tail of the VIOLATION line ("" when no
+// harness exists or no failing input was found; the caller then prints no-failing-input-found).
+// Solver models are not translated: strings are an uninterpreted sort in the encoding, so
+// a model fixes predicates of a string, not its bytes (DESIGN §8).
+func tryReplay(o *checkOpts, r *Result, body map[string]any) string {
+	if os.Getenv("GOVC_NO_REPLAY") != "" || r == nil || r.Obl == nil {
+		return ""
+	}
+	fn, rest, ok := strings.Cut(r.Obl.Name, "/")
+	if !ok {
+		return ""
+	}
+	// closures and hook assertions of callers are not replayable units
+	if strings.Contains(fn, "#") {
+		return ""
+	}
+	label := rest
+	if i := strings.LastIndex(rest, ":"); i >= 0 {
+		label = rest[i+1:]
+	}
+	file, _, _ := strings.Cut(r.Obl.Pos, ":")
+	if file == "" || !strings.HasPrefix(file, o.repo) {
+		return ""
+	}
+	pkgDir := filepath.Dir(file)
+	pkgShort, _, _ := strings.Cut(fn, ".")
+	tmpl := filepath.Join(o.verif, "contracts", "replay", pkgShort+".go.txt")
+	src, err := os.ReadFile(tmpl)
+	if err != nil || !strings.Contains(string(src), "\""+fn+"\"") {
+		return ""
+	}
+	out, cmdline := runReplayHarness(o, pkgDir, tmpl, fn, label)
+	body["replay_harness"] = tmpl
+	body["replay_command"] = cmdline
+	body["replay_output"] = tailLines(out, 40)
+	var first, match string
+	for _, l := range strings.Split(out, "\n") {
+		if !strings.HasPrefix(l, "REPLAY-FAIL ") {
+			continue
+		}
+		if first == "" {
+			first = l
+		}
+		if match == "" && strings.HasPrefix(l, "REPLAY-FAIL label="+label+" ") {
+			match = l
+		}
+	}
+	pick := match
+	if pick == "" {
+		pick = first
+	}
+	if pick == "" {
+		return ""
+	}
+	in := pick[strings.Index(pick, "input=")+len("input="):]
+	lab := strings.TrimPrefix(strings.Fields(pick)[1], "label=")
+	body["failing_input"] = in
+	body["failing_label"] = lab
+	if len(in) > 400 {
+		in = in[:400] + "..."
+	}
+	return fmt.Sprintf("failing-input=[%s] violates=%s (real %s run by the replay harness; bounded search, not the solver's model)", in, lab, fn)
+}
+
+func tailLines(s string, n int) string {
+	ls := strings.Split(strings.TrimRight(s, "\n"), "\n")
+	if len(ls) > n {
+		ls = ls[len(ls)-n:]
+	}
+	return strings.Join(ls, "\n")
+}
+
+// runReplayHarness runs `go test -overlay` in pkgDir with the harness mapped to a test file
+// that does not exist on disk. A mutation given through GOVC_MUTATE is part of the overlay.
+func runReplayHarness(o *checkOpts, pkgDir, tmpl, fn, label string) (string, string) {
+	dir, err := os.MkdirTemp("", "govc-replayrun-")
+	if err != nil {
+		return "", ""
+	}
+	defer os.RemoveAll(dir)
+	repl := map[string]string{filepath.Join(pkgDir, "zz_verif_replay_test.go"): tmpl}
+	i := 0
+	for path, data := range o.overlay {
+		f := filepath.Join(dir, fmt.Sprintf("mut%d.go", i))
+		i++
+		os.WriteFile(f, data, 0o644)
+		repl[path] = f
+	}
+	ov, _ := json.Marshal(map[string]any{"Replace": repl})
+	ovf := filepath.Join(dir, "overlay.json")
+	os.WriteFile(ovf, ov, 0o644)
+	args := []string{"test", "-overlay", ovf, "-vet=off", "-count=1", "-v", "-timeout", "120s", "-run", "^TestVerifReplay$", "."}
+	cmd := exec.Command("go", args...)
+	cmd.Dir = pkgDir
+	cmd.Env = append(os.Environ(), "VERIF_REPLAY_FUNC="+fn, "VERIF_REPLAY_LABEL="+label, "GOCACHE="+filepath.Join(dir, "gocache-unused"))
+	// share the default build cache (read-mostly) unless it is not writable
+	cmd.Env = cmd.Env[:len(cmd.Env)-1]
+	out, _ := cmd.CombinedOutput()
+	return string(out), fmt.Sprintf("cd %s && VERIF_REPLAY_FUNC=%s go test -overlay <zz_verif_replay_test.go=%s> -vet=off -count=1 -v -timeout 120s -run '^TestVerifReplay$' .", pkgDir, fn, tmpl)
+}
 
 // cmdReplay re-decides one recorded violation: it reads a replay file,
 // (1) re-runs the SMT text stored in it on the solvers, so that the recorded
@@ -74,8 +174,14 @@ func cmdReplay(args []string) int {
 		return 0
 	}
 	failing := false
+	tail := "no-failing-input-found"
 	for _, r := range out.violations {
 		if r.Obl.Name == name {
+			if !failing {
+				if rep := tryReplay(o, r, map[string]any{}); rep != "" {
+					tail = rep
+				}
+			}
 			failing = true
 		}
 	}
@@ -96,7 +202,7 @@ func cmdReplay(args []string) int {
 		}
 	}
 	if failing {
-		fmt.Printf("VIOLATION property=%s replay=%s obligation=%s no-failing-input-found\n", *prop, *file, name)
+		fmt.Printf("VIOLATION property=%s replay=%s obligation=%s %s\n", *prop, *file, name, tail)
 		return 1
 	}
 	fmt.Printf("replay: obligation %s is discharged on the current tree\n", name)
